@@ -279,7 +279,7 @@ Definition init_state (max_height : Z) (dbg : bool) : state :=
         (replicate (Z.to_nat (max_height + 1)) []) (max_height + 1) 0
         (replicate (Z.to_nat (max_height + 1)) []) (max_height + 1) 0 0
         NotStabilising 0 [] [] [] [] [] [] STop [] []
-        0 0 0 0 0 0 0 0 dbg [] [] [] [] [] [] [] None 0%nat None.
+        0 0 0 0 0 0 0 0 dbg [] [] [] [] [] [] [] [] None 0%nat None.
 
 (* ------------------------------------------------------------ histories *)
 Notation hnode := nat (only parsing).   (* index into the table of node handles *)
@@ -322,6 +322,10 @@ Inductive op :=
   | OpRemoveDep (e : hnode) (slot : nat)
   | OpMakeStale (e : hnode)
   | OpInvalidateExpert (e : hnode)
+  | OpVarMap (m : list (Z * Z))                    (* a variable holding a map *)
+  | OpSetMap (x : vid) (m : list (Z * Z))
+  | OpPerMapi (inp : hnode) (c : option cutoff) (f : bindfn)
+      (* incr_mapi_ / incr_mapi_cutoff on `inp` (the harness wraps it between two conversion nodes) *)
   | OpMemoNew (f : bindfn)                         (* weak_memoize_fn at top level; outer operands are node handles *)
   | OpMemoCall (m : nat) (key : Z)                 (* call it from top level: yields a node handle *)
   | OpDropNode (n : hnode)                     (* drop the program's handle (Incr clone) *)
@@ -330,10 +334,11 @@ Inductive op :=
   | OpCrashAt (k : nat).                       (* arm the panic injection: k-th user invocation from now *)
 
 (* the expert API's graph surgery (expert.rs).  In debug builds make_stale, remove_dependency and
-   invalidate refuse to run outside a stabilisation; release builds perform them on the spot *)
+   invalidate refuse to run outside a stabilisation; release builds perform them on the spot.
+   (Building a per-key operator goes through add_dependency too.) *)
 Definition expert_op (o : op) : bool :=
   match o with
-  | OpAddDep _ _ _ _ | OpRemoveDep _ _ | OpMakeStale _ | OpInvalidateExpert _ => true
+  | OpAddDep _ _ _ _ | OpRemoveDep _ _ | OpMakeStale _ | OpInvalidateExpert _ | OpPerMapi _ _ _ => true
   | _ => false
   end.
 
@@ -497,11 +502,33 @@ Definition step (fuel : nat) (st : istate) (o : op) : M (istate * out) :=
       ret (st, OutStats (num_created s) (num_changed s) (num_recomputed s) (num_invalidated s)
                         (num_became_necessary s) (num_became_unnecessary s))
   | OpSetMaxHeight n => set_max_height_allowed n ;;; ret (st, OutUnit)
+  | OpVarMap m =>
+      s <- get ;;
+      let x := length (vars s) in
+      let n := length (nodes s) in
+      modify (fun s => s <| vars := vars s ++ [Var (VMap m) None (stab_num s) (Some n) n 1 true] |>) ;;;
+      mk (create_node (KVar x))
+  | OpSetMap x m => var_write x (fun _ => VMap m) ;;; ret (st, OutUnit)
+  | OpPerMapi inp c f =>
+      (* the harness: inp.map(to map type).incr_mapi_(f).map(back to the value type);
+         incr_filter_mapi_generic: Node::new (result), lhs.map_cyclic (lhs_change), result.add_dependency *)
+      mk (i <- hnode_get st inp ;;
+          s <- get ;;
+          let pk := length (perkeys s) in
+          conv_in <- create_node (KMap (Clo 0 0 [] true) [i]) ;;
+          s <- get ;;
+          modify (fun s => s <| experts := experts s ++ [Expert 2 [] false 0 true pk 0] |>) ;;;
+          result <- create_node (KExpert (length (experts s))) ;;
+          lhs_change <- create_node (KMap (Clo 10 0 [EPerKeyStep pk] true) [conv_in]) ;;
+          s <- get ;;
+          modify (fun s => s <| perkeys := perkeys s ++ [PerKey result lhs_change [] [] [] (handles_bindfn (handles s) f) c] |>) ;;;
+          expert_add_dependency fuel result lhs_change CbNone ;;;
+          create_node (KMap (Clo 0 0 [] true) [result]))
   | OpMemoNew f => s <- get ;; memo_new (handles_bindfn (handles s) f) ;;; ret (st, OutUnit)
   | OpMemoCall m key => mk (memo_call fuel m key)
   | OpExpert mode =>
       mk (s <- get ;;
-          modify (fun s => s <| experts := experts s ++ [Expert mode [] false 0 true] |>) ;;;
+          modify (fun s => s <| experts := experts s ++ [Expert mode [] false 0 true 0%nat 0] |>) ;;;
           create_node (KExpert (length (experts s))))
   | OpAddDep e h sl cb => run_effect fuel VUnit (EAddDep e h sl cb) ;;; ret (st, OutUnit)
   | OpRemoveDep e sl => run_effect fuel VUnit (ERemoveDep e sl) ;;; ret (st, OutUnit)
